@@ -72,6 +72,9 @@ func (mp *MemProvider) Save(id string) error {
 
 // Count returns the number of sessions.
 func (mp *MemProvider) Count() int {
+	mp.mu.RLock()
+	defer mp.mu.RUnlock()
+
 	return len(mp.st)
 }
 
